@@ -34,6 +34,10 @@ import DadiVerif.Model.DataDict
    polrow out a1 a2                         -> ok pol der         the model's decision for one SNP with arbitrary allele codes (`Snp.polRow`)
    projstats sqrtC m n cols                 -> ok S W thetaL tajvar D | S W thetaL tajvar D   statistics of the spectrum projected from n to m:
                                                by direct counting on the full columns (`sProj`, …) | from the projected spectrum
+   corrected fp proj a b tsnps              -> ok data | err valueerror | err keyerror | err dim     Spectrum.from_data_dict_corrected (data, corners included):
+                                               tsnps = snp|hasCtx,i0,i2,o0,o1,o2;…  (flank / outgroup-context base codes), the table file holds
+                                               a[outgroup base] + b[derived base] for (context, outgroup base), a and b = 4 rationals each (codes 1..4)
+   tricls tsnps                             -> ok s|k:f0,der,f2,og|v|e …            `_data_by_tri` SNP by SNP: skipped / kept in class / ValueError / KeyError
    projw m n i j / chunkidx size p / shapes -> ok … -/
 namespace DadiVerif.Driver.DataDict
 open DadiVerif DadiVerif.Proto DadiVerif.DataDict DadiVerif.Gen.DD
@@ -84,6 +88,19 @@ def parseSite (s : String) : Option Site :=
   | _ => none
 
 def parseSites (s : String) : Option (List Site) := (splitList s ";").mapM parseSite
+
+def parseTriSnp (s : String) : Option TriSnp :=
+  match s.splitOn "|" with
+  | [a, b] => do
+      let snp ← parseSnp a
+      match b.splitOn "," with
+      | [h, i0, i2, o0, o1, o2] => do
+          let h ← parseBool h; let i0 ← i0.toNat?; let i2 ← i2.toNat?; let o0 ← o0.toNat?; let o1 ← o1.toNat?; let o2 ← o2.toNat?
+          some { snp := snp, hasCtx := h, i0 := i0, i2 := i2, o0 := o0, o1 := o1, o2 := o2 }
+      | _ => none
+  | _ => none
+
+def parseTriSnps (s : String) : Option (List TriSnp) := (splitList s ";").mapM parseTriSnp
 
 def parseCol (s : String) : Option (List Bool) :=
   s.toList.mapM fun ch => if ch = '1' then some true else if ch = '0' then some false else none
@@ -260,9 +277,27 @@ def handle (toks : List String) : Option String :=
                 showRat (tajVarProj m n cols), showRat (tajimaProj sq m n cols)]
               ++ " | " ++ " ".intercalate [showRat (sOf m f), showRat (wattersonOf m f), showRat (thetaLOf m f), showRat (tajVarOf m f),
                 showRat (tajimaOf sq m f)])
+  | ["tricls", ts] => do
+      let ts ← parseTriSnps ts
+      some ("ok " ++ " ".intercalate (ts.map fun t => match triClassify t with
+        | .skip => "s"
+        | .keep k => "k:" ++ ",".intercalate [toString k.1.1, toString k.1.2.1, toString k.1.2.2, toString k.2]
+        | .valueError => "v"
+        | .keyError => "e"))
+  | ["corrected", fp, proj, a, b, ts] => do
+      let fp ← parseBool fp; let proj ← parseNatList proj; let a ← parseList a; let b ← parseList b; let ts ← parseTriSnps ts
+      if a.length ≠ 4 || b.length ≠ 4 then some "err table"
+      else if !lengthsOk proj (ts.map (·.snp)) then some "err dim"
+      else
+        let F : TriKey → Rat := fun k => corrFuxOfFile (a.getD (k.2 - 1) 0 + b.getD (k.1.2.1 - 1) 0)
+        match correctedAt proj F fp ts with
+        | some u => some ("ok " ++ showData proj u)
+        | none =>
+          if ts.any (fun t => triClassify t == .valueError) then some "err valueerror" else some "err keyerror"
   | ["shapes13"] =>
       some ("ok " ++ " ".intercalate ([accumulateShapeOk, foldIffUnpolarized, fromDataDictShapeOk, sShapeOk, keyParseShapeOk,
-        chunkLoopShapeOk, chunkRebuildShapeOk, bootstrapShapeOk, foldMaskShapeOk, statsSelfWrites.isEmpty, bsvShapeOk].map fun (b : Bool) => if b then "1" else "0"))
+        chunkLoopShapeOk, chunkRebuildShapeOk, bootstrapShapeOk, foldMaskShapeOk, statsSelfWrites.isEmpty, bsvShapeOk,
+        triShapeOk, corrLoopShapeOk, corrForcePosShapeOk].map fun (b : Bool) => if b then "1" else "0"))
   | _ => none
 
 end DadiVerif.Driver.DataDict
